@@ -25,6 +25,21 @@ RULE = ('sequential histories of 3..120 operations (reserve, register, unregiste
 FLOORS = (50, 10)
 
 
+def _external_kill(r):
+    """SIGKILL cannot come from the code under test (no OOM here): another job on the shared box killed the process."""
+    return r.signal == 9 and not r.san and not r.of('violation') and not (r.stalled or r.timed_out)
+
+
+def _retry_killed(ctx, runner):
+    r = runner()
+    if _external_kill(r):
+        ctx.add_cov('rerun_after_external_sigkill', 1)
+        r = runner()
+        if _external_kill(r):          # twice: machinery trouble, never a verdict
+            r.signal = None; r.rc = 2
+    return r
+
+
 def _exe(ctx, flavour):
     return ctx.harness('c37_tpid', flavour)
 
@@ -74,8 +89,8 @@ def run(ctx):
         cmd = [str(c) for c in j['cmd']]
         tag = '%s-%s-%d' % (j['kind'], j['flavour'], id(j))
         if j['kind'] == 'mpi':
-            return j, ctx.run(cmd, timeout=900, mpi=j['ranks'], tag=tag)
-        return j, ctx.run(cmd, timeout=900, stall_s=120 if j['kind'] != 'probe0' else None, tag=tag)
+            return j, _retry_killed(ctx, lambda: ctx.run(cmd, timeout=900, mpi=j['ranks'], tag=tag))
+        return j, _retry_killed(ctx, lambda: ctx.run(cmd, timeout=900, stall_s=180 if j['kind'] != 'probe0' else None, tag=tag))
 
     res = (ctx.pmap(one, [j for j in jobs if j['kind'] in ('hist', 'probe0')], jobs=6) +
            ctx.pmap(one, [j for j in jobs if j['kind'] == 'conc'], jobs=1) +
